@@ -166,6 +166,8 @@ def check_c09(tier, replay):
 def c10_stage(v, scr, th):
     """(a) the pinned framing model (parity sent whatever the MTU in force) must still be refuted by TLC -- the machinery sees the
     repaired defect; (b) its deterministic witness on the real code: a smaller MTU accepted while an FEC group is open."""
+    # (c) the protocol core's own output sizes on the boundary scripts (three reservations in one flush, fragment-count boundaries)
+    cc.scripts_stage(v, scr, "C10", ["C10_OutSize", "C05_NoPanic"])
     r = vlib.run_tlc(scr, "FrameMC", "Frame_pinned_crc_2_1.cfg", timeout=600)
     if r.ok or r.violation != "LenBound":
         raise MachineryError("Frame_pinned_crc_2_1.cfg: TLC no longer finds the pre-repair parity defect (%s)" % r.violation)
@@ -241,12 +243,8 @@ def c05_stage(v, scr, th):
     read with the PeekSize idiom, fragment-count boundaries) judged by C05_NoPanic and the C04 bounds; (b) forged FEC sequence
     ids from the boundary regions of the id space fed to the real decoder, judged by C05_NoPanic / C05_DecoderBounded."""
     import checks_fec as cf
-    ind, outd = scr.sub("c05-in"), scr.sub("c05-out")
-    v.notes["boundary_scripts"] = cc.boundary_scripts(os.path.join(ind, "core_scripts.ndjson"))
-    cc.go_core(scr, "TestCoreScripts$", dict(VERIF_IN=ind, VERIF_OUT=outd))
-    cc.summarize(v, outd, ["core_scripts"])
-    cc.validate_traces(v, scr, "C05", os.path.join(outd, "core_scripts.ndjson"), "core_scripts",
-                       ["C05_NoPanic", "C04_RcvQueueBounded", "C04_RcvBufBounded"], None, conformance=True)
+    outd = scr.sub("c05-out")
+    cc.scripts_stage(v, scr, "C05", ["C05_NoPanic", "C04_RcvQueueBounded", "C04_RcvBufBounded", "C10_OutSize"])
     rc, out = vlib.go_test("./fecdrv", "TestFecForged$", dict(VERIF_OUT=outd, FEC_RUNS=96 if th else 16), timeout=1200)
     if rc != 0:
         raise MachineryError("fec driver failed:\n" + out[-3000:])
